@@ -93,6 +93,7 @@ func (c *Ctx) Func(name string) *ssa.Function {
 func (c *Ctx) NewEval(p *sx.Path, pkg *types.Package) *spec.Eval {
 	ev := &spec.Eval{P: p, Prog: c.P, Vars: map[string]spec.TV{}, Funcs: c.SpecFuncs, Builtins: map[string]spec.Builtin{}, Pkg: pkg}
 	c.installBuiltins(ev)
+	c.installValueBuiltins(ev)
 	return ev
 }
 
@@ -218,8 +219,7 @@ func (us *UnitSpec) Unit() *vc.Unit {
 	u.Run = func(m *sx.Machine) ([]sx.PathResult, error) {
 		var evalErr error
 		base, baseNext := m.BaseHeap, m.BaseNext
-		savedHook := m.CallHook
-		defer func() { m.CallHook = savedHook }()
+		m = m.Clone() // units are explored in parallel: hooks are per unit
 		m.CallHook = nil
 		if us.Prepare != nil {
 			h, n, perr := m.Prepare(us.Prepare)
